@@ -1,7 +1,7 @@
 """C11 -- derived values are never stale after a dependency changes."""
 from . import _sc
 
-NAMES = ["inv_chain", "inv_attr", "inv_nocache", "inv_list", "inv_sub", "frozen_inv", "inv_post_init", "inv_two_wild", "inv_mixin", "inv_plain_between"]
+NAMES = ["inv_chain", "inv_attr", "inv_nocache", "inv_list", "inv_sub", "frozen_inv", "inv_post_init", "inv_two_wild", "inv_mixin", "inv_plain_between", "inherit_dnc"]
 
 
 def main(tier):
